@@ -22,7 +22,7 @@ ASSUMPTIONS = ["regex stages of the reader are replaced by hand-written scanners
                "file encoding / newline translation of open() is Python's", "floats compared through repr"]
 
 RESERVED_RE = re.compile(r"COMMENT|INCLUDE|STRINGLITERAL|EXPRESSION|_variables|_includes")
-LINEBREAKS = "\n\r\x0b\x0c\x1c\x1d\x1e\x85\u2028\u2029"
+LINEBREAKS = "\n\r"          # \\x0b \\x0c \\x1c-\\x1e \\x85 U+2028 U+2029 are ordinary characters of a single-line string (gen class "linesep")
 
 
 def str_in_dom(s: str, foam: bool = False) -> bool:
@@ -50,7 +50,8 @@ def key_in_dom(k) -> bool:
         return False
     if isinstance(k, int):
         return True
-    return isinstance(k, str) and gen.is_plain_word(k) and k not in ("-", "_", ".")
+    # a key that starts with `#include` *is* the include directive of the documented syntax, not a data key
+    return isinstance(k, str) and gen.is_plain_word(k) and k not in ("-", "_", ".") and not k.startswith("#include")
 
 
 def in_dom(v, depth: int = 0, foam: bool = False) -> bool:
@@ -253,8 +254,19 @@ def run(ctx: Ctx) -> None:
               {"k": "\\abc"}, {"k": "abc\\"}, {"k": 'x "b"'}, {"k": '"b"'}, {"k": "'"}, {"k": ""}, {"k": []}, {"k": {}}, {"k": [[], {}, [[1]]]},
               {"a": {"b": {"c": {"d": {"e": {"f": {"g": {"h": {"i": "deep x"}}}}}}}}}, {"k": "2024-01"}, {"k": "1e5"}, {"k": "TRUE"}, {"k": " "},
               {"k": "\u00a0"}, {"k": "١٢"}, {"x" * 31: 1}, {"l": list(range(21))}, {"l": ["a b"] * 11}, {1: {2: [3, "4"]}}]
+    deep: dict = {"j": "deep x", "k": 'say "x" ok'}
+    for k in "ihgfedcba":
+        deep = {k: deep}                        # nesting depth 9: key paths of 10 entries (the supported maximum)
+    deepl: dict = {"items": [1, "deep x", "y"]}
+    for k in "hgfedcba":
+        deepl = {k: deepl, "s" + k: "x y"}
+    corpus += [deep, deepl, {"encoding": "latin-1", "author": "Jörg Müller"}, {"coding": "utf-16", "t": "é"}]
     for d in corpus:
         cases.append({"kind": "dict", "d": enc(d)}); ctx.corpus_cases += 1
+    for _ in range(ctx.n(60, 1500)):
+        d = gen.meta_dict(rng)                  # data that looks like file metadata (keys/values the library knows, codec names)
+        if in_dom(d):
+            cases.append({"kind": "dict", "d": enc(d)})
     for _ in range(ctx.n(1200, 30000)):
         d = gen_dict(rng)
         if in_dom(d):
